@@ -8,11 +8,11 @@ def parse(path, kind):
         return rows
     for l in open(path):
         if kind == 'revert':
-            m = re.match(r'(\S+) revert-of (\S+) check=(\S+) exit=(\d+) violations=(\d+) :: (.*?) :: (.*)', l.strip())
+            m = re.match(r'(\S+) revert-of (\S+) check=(\S+) exit=(\d+) violations=(\d+) ::\s*(.*?)\s*::\s*(.*)', l.strip())
             if m:
                 rows.append(dict(what=m.group(2), check=m.group(3), exit=int(m.group(4)), vline=m.group(6), detail=m.group(7)))
         else:
-            m = re.match(r'(\S+) (?:seeded|neutral) (\S+) check=(\S+) tier=(\S+) exit=(\d+) :: (.*?) :: (.*)', l.strip())
+            m = re.match(r'(\S+) (?:seeded|neutral) (\S+) check=(\S+) tier=(\S+) exit=(\d+) ::\s*(.*?)\s*::\s*(.*)', l.strip())
             if m:
                 rows.append(dict(what=m.group(2), check=m.group(3), tier=m.group(4), exit=int(m.group(5)), vline=m.group(6), detail=m.group(7)))
     return rows
